@@ -5,6 +5,8 @@ K   : (a) ThetaRecord.update / remove / inits / bounds / fixs of the real code v
           token list (spelling included); the same comparison for every ThetaRecord.update/remove call that the
           real update_thetas makes during public-API edit sequences (calls are recorded by a wrapper);
           the Lean recogniser of the `theta` grammar rule vs lark on every original and updated record;
+      (c) the names OmegaRecord.parse/_get_name attribute to the items of a diagonal record (before and after remove)
+          vs the Lean `diagNames`;
       (b) OmegaRecord.parse / update scale conversions (VARIANCE|SD x COVARIANCE|CORRELATION) vs the Lean
           entrywise conversion over exact rationals (12 significant digits).
 Mon : the property statement on the real code: parameters(read(code(E(read(L))))) == parameters(E(read(L)))
@@ -33,7 +35,8 @@ RULE = ("three case kinds. theta: one $THETA record derived at random from theta
         "decimal/exponent/sign spellings; missing comma, trailing comma, comments and newlines between and inside items; a "
         "few deliberately unreadable ones) x 1-3 parameter vectors (init/lower/upper/fix edits, uniform and split edits of "
         "xn items) x 1 removal set, through ThetaRecord.update/remove directly. api: a whole control stream with 1-3 $THETA, "
-        "1-3 $OMEGA (diagonal with FIX/SD/VAR/(v)xn/DIAGONAL(n), BLOCK(n) with FIX/SD/CORR/VAR/COV and abbreviations, name "
+        "1-3 $OMEGA (diagonal with FIX/SD/VAR/(v)xn/DIAGONAL(n), in 30 % of the diagonal records stand-alone comment lines between the "
+        "items: name comment on the line below the value, note lines with or without an identifier, indentation; BLOCK(n) with FIX/SD/CORR/VAR/COV and abbreviations, name "
         "comments) and 1-2 $SIGMA records x 1-4 (thorough 1-7) edits from {set_initial_estimates, set_lower_bounds, "
         "set_upper_bounds, fix_parameters, unfix_parameters, add_population_parameter, remove theta, create_joint_distribution, "
         "split_joint_distribution, add_iiv, remove_iiv}. omega: BLOCK(n) scale conversions with exact-square values. "
@@ -214,6 +217,9 @@ def corpus_cases():
         {"kind": "omega", "rec": "$OMEGA FIX BLOCK(2) 0.1 0.01 0.2 FIX\n", "size": 2, "newcov": [0.1, 0.01, 0.2], "fixseq": [False], "same_values": True, "seed": 14},
         {"kind": "diag", "rec": "$OMEGA (0.1)x2 0.3\n", "edits": [[{"fix": True}, {}, {}]], "remove": [], "seed": 10},
         {"kind": "diag", "rec": "$OMEGA DIAG(3) 0.1 0.2 SD 0.3 ; c\n", "edits": [[{}, {"init": 0.09}, {}]], "remove": [2], "seed": 11},
+        # stand-alone comment lines after a removed item go with it (name comment below the value / note line)
+        {"kind": "diag", "rec": "$OMEGA 0.1\n 0.2\n ; IIV_V\n 0.3 ; IIV_KA\n", "edits": [[{}, {}, {}]], "remove": [1], "seed": 20},
+        {"kind": "diag", "rec": "$SIGMA 0.1\n0.2 ; RUV_B\n; previous_value 0.4\n0.3 ; RUV_C\n", "edits": [[{}, {}, {}]], "remove": [1], "seed": 21},
     ] + c04_api.corpus_cases()
 
 
@@ -768,6 +774,47 @@ def diag_oparams(rec, ps):
     return out
 
 
+def diag_item_names(rec):
+    """the name comment OmegaRecord.parse attributes to each diag_item (None without one), one entry per item"""
+    blocks = rec.parse()
+    out, pos = [], 0
+    for nd in diag_items(rec):
+        n = int(str(nd.subtree("n").leaf("INT"))) if nd.find("n") else 1
+        out.append(blocks[pos][0][0])
+        pos += n
+    return out
+
+
+def k_diag_names(rec, drv, k, label):
+    """K: the names read from the in-memory tree (OmegaRecord._get_name through parse) vs the Lean `diagNames`"""
+    try:
+        names = diag_item_names(rec)
+    except ModelSyntaxError:
+        return None
+    m = drv.ask(["dnames", U.drec_wire(rec.root)])
+    want = [["some", nm] if nm is not None else "none" for nm in names]
+    if m != want:
+        k.append(f"{label}names of {str(rec.root)!r}: model {_show(m)} code {names}")
+    return names
+
+
+def monitor_diag_remove_names(key, rec, inds, rem, mon):
+    """the kept items of a diagonal record are re-read under the names they had before the removal (names carried by
+    name comments; None = no name comment = the default name of the position)"""
+    try:
+        before = diag_item_names(rec)
+        after = diag_item_names(create_record(key + str(rem.root)))
+    except (ModelSyntaxError, lark_errors.LarkError):
+        return False
+    want = [nm for i, nm in enumerate(before) if i not in inds]
+    if after != want:
+        mon.append({"cls": "omega-diag-remove-name-readback",
+                    "what": f"remove({sorted(inds)}) of {key + str(rec.root)!r} writes {key + str(rem.root)!r}: the kept items were named "
+                            f"{want}, they are read back as {after}"})
+        return True
+    return False
+
+
 def py_dparse(rec):
     try:
         blocks = rec.parse()
@@ -814,6 +861,10 @@ def run_diag_case(case, drv):
         m = drv.ask(["dlen", w])
         if m != str(len(rec)):
             k.append(f"diag len: model {m} code {len(rec)}")
+        if not isinstance(old, tuple):
+            k_diag_names(rec, drv, k, "")
+    if re.search(r"\n[ \t]*;", case["rec"]):
+        tags.append("layout:diag-comment-line")
     if isinstance(old, tuple):
         tags.append("read-refused:" + old[1])
         return {"k": k, "mon": mon, "tags": tags, "nontrivial": False}
@@ -862,6 +913,9 @@ def run_diag_case(case, drv):
             m = drv.ask(["dremove", U.drec_wire(rec.root), inds])
             if m != U.norm(U.drec_wire(rem.root)):
                 k.append(f"OmegaRecord.remove {inds} on {case['rec']!r}: model {_show(m)} code {_show(U.norm(U.drec_wire(rem.root)))}")
+            k_diag_names(rem, drv, k, f"after remove({inds}): ")
+        if monitor_diag_remove_names(key, rec, set(inds), rem, mon):
+            tags.append("mon:diag-remove-names-differ")
         text = key + str(rem.root)
         want = []
         pos = 0
